@@ -82,11 +82,23 @@ fn c01(rng: &mut Rng, out: &mut Out) {
     }
     // the same over f64 and Complex<f64> (magnitude-based pivoting goes through abs / PartialOrd of these types):
     // integer data with a nonsingular exact twin, plus tiny or negative leading entries that only a row exchange survives
-    for it in 0..240 { case();
-        let n = 1 + (it % 5);
-        let a = rand_m(rng, n, n);
+    for it in 0..440 { case();
+        let n = if it < 240 { 1 + (it % 5) } else { 3 + (it % 4) };
+        let mut a = rand_m(rng, n, n);
+        // it >= 240: at elimination step k the pivot column holds (zero or tiny diagonal, entries of order one, tiny entries that
+        // are still larger than the diagonal) - only the choice of the LARGEST magnitude keeps the multipliers bounded
+        let mut tiny: Vec<(usize, usize, f64)> = vec![];
+        if it >= 240 {
+            let k = rng.below(n as u64 - 2) as usize;
+            for i in 0..n { for j in 0..k { a[i][j] = Q::int((i == j) as i64); } }
+            a[k][k] = Q::int(0); tiny.push((k, k, if it % 2 == 0 { 0.0 } else { 1.0e-18 }));
+            let big = k + 1 + rng.below((n - k - 1) as u64 - if it % 3 == 0 { 1 } else { 0 }) as usize;     // it % 3 == 0: never the last row
+            for i in k + 1..n { if i == big { if a[i][k].is_zero() { a[i][k] = Q::int(2); } }
+                else if rng.below(2) == 0 || (it % 3 == 0 && i == n - 1) { a[i][k] = Q::int(0); tiny.push((i, k, if rng.below(2) == 0 { 1.0e-17 } else { -1.0e-17 })); } }
+        }
         if det_ref(&a).is_zero() { continue; }
         let mut af: Vec<Vec<f64>> = a.iter().map(|r| r.iter().map(|x| x.to_f64()).collect()).collect();
+        for &(i, j, v) in &tiny { af[i][j] = v; }
         if n > 1 && it % 3 == 0 && a[1][0].to_f64() != 0.0 { af[0][0] = 1.0e-17; }       // tiny leading pivot
         if n > 1 && it % 4 == 1 { for j in 0..n { af[n - 1][j] *= -1.0e3; } }            // large negative row
         let xs: Vec<f64> = (0..n).map(|_| rng.int(-4, 4) as f64).collect();
@@ -283,7 +295,7 @@ fn c04(rng: &mut Rng, out: &mut Out) {
 }
 fn c04_f64(rng: &mut Rng, out: &mut Out) {
     // f64 twin: magnitude pivoting inside the band with negative / tiny / zero diagonals; padding value must not matter
-    for n in 1..7usize { for m1 in 0..n { for m2 in 0..n { for rep in 0..4 { case();
+    for n in 1..7usize { for m1 in 0..n { for m2 in 0..n { for rep in 0..6 { case();
         let mut b = Banded::<f64>::new(n, m1, m2, 7.5);
         let mut d = vec![vec![0.0f64; n]; n];
         for i in 0..n { for j in 0..n { if j <= i + m2 && i <= j + m1 {
@@ -291,6 +303,13 @@ fn c04_f64(rng: &mut Rng, out: &mut Out) {
             if i == j { v = match rep { 0 => -(1.0 + rng.below(3) as f64), 1 => if m1 > 0 && i + 1 < n { 0.0 } else { 2.0 }, 2 => if m1 > 0 && i + 1 < n { 1.0e-17 } else { 3.0 }, _ => v }; }
             if rep == 1 && i == j + 1 { v = -3.0; }
             if rep == 2 && i == j + 1 { v = 2.0; }
+            // rep 4 / 5: a pivot column (the first / every one) holds a zero or tiny diagonal, an entry of order one just below it and
+            // a tiny entry - still larger than the diagonal - at the bottom of the band: only the LARGEST magnitude is a safe pivot
+            if rep >= 4 && m1 >= 2 && (j == 0 || rep == 5) && j + m1 < n {
+                if i == j { v = if (n + m1 + m2) % 2 == 0 { 0.0 } else { 1.0e-18 }; }
+                if i == j + 1 { v = if rng.below(2) == 0 { 3.0 } else { -2.0 }; }
+                if i == j + m1 { v = if rng.below(2) == 0 { 1.0e-17 } else { -1.0e-17 }; }
+            }
             b[(i, j)] = v; d[i][j] = v;
         } } }
         let dq: M = d.iter().map(|r| r.iter().map(|x| if x.abs() < 1e-10 && *x != 0.0 { Q::int(0) } else { Q::int(*x as i64) }).collect()).collect();
@@ -328,7 +347,8 @@ fn c05(rng: &mut Rng, out: &mut Out) {
     for n in 1..8usize { for rep in 0..12 { case();
         let sub: Vec<Q> = (0..n - 1).map(|_| if rep % 4 == 0 { Q::int(0) } else { rng.q() }).collect();
         let sup: Vec<Q> = (0..n - 1).map(|_| rng.q()).collect();
-        let main: Vec<Q> = (0..n).map(|_| if rep % 5 == 0 { Q::int(0) } else { rng.q() }).collect();
+        let mut main: Vec<Q> = (0..n).map(|_| if rep % 5 == 0 { Q::int(0) } else { rng.q() }).collect();
+        if rep % 3 == 1 && n >= 2 { let j = 1 + rng.below(n as u64 - 1) as usize; main[j] = Q::int(0); }      // a zero diagonal entry that need not be a zero pivot
         let t = Tridiagonal::with_vecs(sub.clone(), main.clone(), sup.clone());
         let mut d: M = vec![vec![Q::int(0); n]; n];
         for i in 0..n { d[i][i] = main[i]; if i + 1 < n { d[i + 1][i] = sub[i]; d[i][i + 1] = sup[i]; } }
@@ -349,7 +369,13 @@ fn c05(rng: &mut Rng, out: &mut Out) {
         let rhs = matvec(&d, &x);
         match quiet(|| t.solve(&Vector::create(rhs.clone()))) {
             Ok(s) => { if matvec(&d, &vq(&s)) != rhs { report(out, "C05 solve returns a solution or refuses", format!("{} r={}", desc, qs(&rhs)), qs(&vq(&s)), "T*x == r".into()); } }
-            Err(e) => if !e.contains("Tridiagonal error") { report(out, "C05 solve must refuse with the zero-pivot message, not fail otherwise", format!("{} r={}", desc, qs(&rhs)), e, "zero-pivot panic or exact solution".into()); },
+            Err(e) => {
+                if !e.contains("Tridiagonal error") { report(out, "C05 solve must refuse with the zero-pivot message, not fail otherwise", format!("{} r={}", desc, qs(&rhs)), e.clone(), "zero-pivot panic or exact solution".into()); }
+                // the pivots of elimination without interchanges: beta_0 = main_0, beta_j = main_j - sub_{j-1} sup_{j-1} / beta_{j-1}
+                let mut beta = main[0]; let mut zero_pivot = beta == Q::int(0);
+                for j in 1..n { if zero_pivot { break; } beta = main[j] - sub[j - 1] * sup[j - 1] / beta; if beta == Q::int(0) { zero_pivot = true; } }
+                if !zero_pivot { report(out, "C05 solve refuses only when elimination meets a zero pivot", format!("{} r={}", desc, qs(&rhs)), e, format!("the exact solution {} (no pivot is zero)", qs(&x))); }
+            }
         }
     } }
 }
@@ -591,7 +617,20 @@ fn c09(rng: &mut Rng, out: &mut Out) {
 
 // ---------------------------------------------------------------- C10 roots
 /// |p(z)| and the normwise scale sum |c_k| max(1,|z|)^k
-fn peval(c: &[Cmplx], z: Cmplx) -> (f64, f64) { let mut p = Cmplx::new(0.0, 0.0); let mut s = 0.0; let az = z.abs().max(1.0); for k in (0..c.len()).rev() { p = p * z + c[k]; s = s * az + c[k].abs(); } (p.abs(), s) }
+/// (|p(z)|, sum |c_k| |z|^k) for |z| <= 1, and both divided by |z|^n (Horner in 1/z) for |z| > 1, so that neither overflows for a
+/// finite z however large; complex arithmetic written out, independent of the library's
+fn peval(c: &[Cmplx], z: Cmplx) -> (f64, f64) {
+    let m = z.real.abs().max(z.imag.abs());
+    let (wr, wi, rev) = if m <= 1.0 && (z.real * z.real + z.imag * z.imag) <= 1.0 { (z.real, z.imag, false) }
+        else { let (zr, zi) = (z.real / m, z.imag / m); let den = (zr * zr + zi * zi) * m; (zr / den, -zi / den, true) };
+    let aw = if rev { (wr * wr + wi * wi).sqrt() } else { 1.0 };      // the scale uses max(1, |z|)
+    let (mut pr, mut pi, mut s) = (0.0f64, 0.0f64, 0.0f64);
+    let n = c.len();
+    for t in 0..n { let k = if rev { t } else { n - 1 - t };
+        let (nr, ni) = (pr * wr - pi * wi + c[k].real, pr * wi + pi * wr + c[k].imag); pr = nr; pi = ni;
+        s = s * aw + (c[k].real * c[k].real + c[k].imag * c[k].imag).sqrt(); }
+    ((pr * pr + pi * pi).sqrt(), s)
+}
 fn c10(rng: &mut Rng, out: &mut Out) {
     let mut cases: Vec<Vec<Cmplx>> = vec![];
     for deg in 1..8usize { for rep in 0..12 { case();
@@ -615,6 +654,12 @@ fn c10(rng: &mut Rng, out: &mut Out) {
     { let mul = |p: &Vec<Cmplx>, r: f64| -> Vec<Cmplx> { let mut q = vec![Cmplx::new(0.0, 0.0); p.len() + 1]; for (k, c) in p.iter().enumerate() { q[k + 1] = q[k + 1] + *c; q[k] = q[k] - *c * r; } q };
       for roots in [vec![10.0; 7], vec![3.0; 8], vec![1.0, 1.0, -2.0, -2.0, 3.0, 3.0, -0.5, -0.5], vec![1.0, 1.0, 1.0, -2.0, -2.0, -2.0, 0.5, 0.5, 0.5], vec![1.0, 1.0, -1.0, -1.0, 2.0, 2.0, -2.0, -2.0, 0.5, 0.5, -0.5, -0.5]] {
           let mut p = vec![Cmplx::new(1.0, 0.0)]; for r in &roots { p = mul(&p, *r); } cases.push(p); } }
+    // sparse polynomials with a large constant term: every derivative vanishes at the origin, where the iteration starts
+    for n in 4..=12usize { for c0 in [4000.0, -4000.0, 1.0e6, -1.0e5] {
+        let mut v = vec![Cmplx::new(0.0, 0.0); n + 1]; v[0] = Cmplx::new(-c0, 0.0); v[n] = Cmplx::new(1.0, 0.0); cases.push(v.clone());     // x^n - c
+        v[1] = Cmplx::new(-3.0, 0.0); cases.push(v.clone());                                                                                  // x^n - 3x - c
+        v[1] = Cmplx::new(0.0, 0.0); v[n] = Cmplx::new(2.5, 0.0); v[n / 2] = Cmplx::new(1.0, 0.0); cases.push(v);                             // 2.5 x^n + x^(n/2) - c
+    } }
     for c in cases { for refine in [false, true] { case();
         let deg = c.len() - 1;
         let ctx = format!("coeffs={:?} refine={}", c.iter().map(|z| (z.real, z.imag)).collect::<Vec<_>>(), refine);
@@ -692,6 +737,9 @@ fn c11(rng: &mut Rng, out: &mut Out) {
                 let dn = match quiet(|| pa.derivative_n(n)) { Ok(d) => coeffs_of(&d), Err(e) => { report(out, "C11 derivative_n panicked for an order <= degree+1", format!("p={} n={}", qs(&a), n), e, "a polynomial".into()); break; } };
                 let mut e = a.clone(); for _ in 0..n { e = (1..e.len()).map(|k| Q::int(k as i64) * e[k]).collect(); }
                 if dn != e { report(out, "C11 n-th derivative coefficients", format!("p={} n={}", qs(&a), n), qs(&dn), qs(&e)); break; }
+                if !e.is_empty() { match quiet(|| pa.derivative_at(x, n)) {
+                    Ok(v) => if v != pev(&e, x) { report(out, "C11 derivative_at(x, n) is the n-th derivative evaluated at x (orders 0 ..= degree)", format!("p={} x={:?} n={}", qs(&a), x, n), format!("{:?}", v), format!("{:?}", pev(&e, x))); break; },
+                    Err(er) => { report(out, "C11 derivative_at panicked for an order <= degree", format!("p={} x={:?} n={}", qs(&a), x, n), er, format!("{:?}", pev(&e, x))); break; } } }
             }
         }
         let k = rng.q(); let sm = coeffs_of(&(&pa * k)); if sm != a.iter().map(|c| *c * k).collect::<Vec<_>>() { report(out, "C11 scalar multiple", ctx.clone(), qs(&sm), "termwise".into()); }
@@ -837,6 +885,30 @@ fn c15(rng: &mut Rng, out: &mut Out) {
             _ => if rng.below(3) == 0 { m.clear(); v.clear(); h.push("clear".into()); } }
             if v.size() != m.len() || (0..m.len()).any(|i| v[i] != m[i]) { report(out, "C15 vector equals the list model after a sequence of edits", format!("start {:?}; {}", iv, h.join("; ")), format!("{:?}", v), format!("{:?}", m)); break; } }
     }
+    // generated sequences in both directions: start exactly at a, end at b to rounding, strictly monotone towards b, evenly spaced
+    for (a, b) in [(1.0f64, 3.0f64), (1.0, 0.0), (0.0, -2.5), (5.0, -5.0), (-1.0, -0.25), (2.0, 1.0e3), (1.0e3, 2.0)] { for n in [2usize, 3, 5, 11, 64] { case();
+        match quiet(|| Vector::<f64>::linspace(a, b, n)) {
+            Ok(l) => { let sc = a.abs().max(b.abs());
+                let bad = l.size() != n || l[0] != a || (l[n - 1] - b).abs() > 1e-12 * sc || (0..n - 1).any(|i| if b > a { l[i] >= l[i + 1] } else { l[i] <= l[i + 1] })
+                    || (0..n).any(|i| (l[i] - (a + (b - a) * i as f64 / (n - 1) as f64)).abs() > 1e-12 * sc);
+                if bad { report(out, "C15 linspace(a, b, n) starts exactly at a, ends at b, is monotone and evenly spaced (ascending and descending)", format!("linspace({}, {}, {})", a, b, n), format!("{:?}", (0..l.size()).map(|i| l[i]).collect::<Vec<_>>()), "a, a+h, ..., b".into()); } }
+            Err(e) => report(out, "C15 linspace panicked for n >= 2", format!("linspace({}, {}, {})", a, b, n), e, "a sequence".into()) }
+    } }
+    // every form of + and - (borrowed, consuming, mixed, compound) agrees on equal sizes and refuses operands of different sizes - both ways round
+    for la in 0..5usize { for lb in 0..5usize { case();
+        let (ua, ub): (Vec<Q>, Vec<Q>) = ((0..la).map(|_| rng.q()).collect(), (0..lb).map(|_| rng.q()).collect());
+        let (va, vb) = (Vector::create(ua.clone()), Vector::create(ub.clone()));
+        let forms: Vec<(&str, Box<dyn Fn() -> Vector<Q>>)> = vec![
+            ("&u + &v", Box::new(|| &va + &vb)), ("u + &v", Box::new(|| va.clone() + &vb)), ("u + v", Box::new(|| va.clone() + vb.clone())), ("u += v", Box::new(|| { let mut t = va.clone(); t += vb.clone(); t })),
+            ("&u - &v", Box::new(|| &va - &vb)), ("u - &v", Box::new(|| va.clone() - &vb)), ("u - v", Box::new(|| va.clone() - vb.clone())), ("u -= v", Box::new(|| { let mut t = va.clone(); t -= vb.clone(); t }))];
+        for (k, (name, f)) in forms.iter().enumerate() {
+            let r = quiet(|| f());
+            if la != lb { if r.is_ok() { report(out, "C15 vector + / - in every form refuses operands of different sizes", format!("{} with sizes {} and {}", name, la, lb), "returned a value".into(), "panic".into()); } }
+            else { let e: Vec<Q> = (0..la).map(|i| if k < 4 { ua[i] + ub[i] } else { ua[i] - ub[i] }).collect();
+                match r { Ok(v) => if vq(&v) != e { report(out, "C15 vector + / - in every form is elementwise", format!("{} u={} v={}", name, qs(&ua), qs(&ub)), qs(&vq(&v)), qs(&e)); },
+                          Err(er) => report(out, "C15 vector + / - panicked on equal sizes", format!("{} u={} v={}", name, qs(&ua), qs(&ub)), er, qs(&e)) } }
+        }
+    } }
     let l = Vector::<f64>::linspace(1.0, 3.0, 5); if l[0] != 1.0 || (l[4] - 3.0).abs() > 1e-12 || (0..4).any(|i| l[i] >= l[i + 1]) { report(out, "C15 linspace starts at a, ends at b, monotone", "linspace(1,3,5)".into(), format!("{:?}", l), "[1, 1.5, 2, 2.5, 3]".into()); }
 }
 fn c16_sizes(out: &mut Out) {
@@ -847,6 +919,19 @@ fn c16_sizes(out: &mut Out) {
 }
 fn c16(_rng: &mut Rng, out: &mut Out) {
     c16_sizes(out);
+    // scheduling independence: data whose partial sums are NOT exact (large head, cancelling tail, fractional parts), many repeated calls
+    for n in [64usize, 1000, 4096, 4099] { case();
+        let a: Vec<f64> = (0..n).map(|i| (if i < n / 2 { 1.0e8 } else { -1.0e8 }) + ((i * 7919) % 1009) as f64 * 1.37e-3).collect();
+        let b: Vec<f64> = (0..n).map(|i| 1.0 + ((i * 104729) % 997) as f64 * 7.3e-4).collect();
+        let (va, vb) = (Vector::create(a), Vector::create(b));
+        match quiet(|| { let first = va.dot_f64(&vb); let mut distinct = 0usize; for _ in 0..300 { if va.dot_f64(&vb).to_bits() != first.to_bits() { distinct += 1; } } (first, distinct) }) {
+            Ok((first, distinct)) => { let s = va.dot(&vb);
+                if distinct != 0 { report(out, "C16 repeated calls on the same data are bit-identical (the result does not depend on thread scheduling)", format!("len={} workers={} (inexact partial sums, 301 calls)", n, std::thread::available_parallelism().map(|x| x.get()).unwrap_or(0)), format!("{} of 300 repeats differ from the first result {:e}", distinct, first), "0 differ".into()); }
+                let mag: f64 = (0..n).map(|i| (va[i] * vb[i]).abs()).sum();
+                if !((first - s).abs() <= 1e-12 * mag) { report(out, "C16 threaded dot == sequential dot up to reassociation", format!("len={} (inexact partial sums)", n), format!("{:e}", first), format!("{:e}", s)); } }
+            Err(e) => report(out, "C16 threaded dot panicked", format!("len={} (inexact partial sums)", n), e, "a value".into()),
+        }
+    }
     // increasing lengths, then short and empty vectors again AFTER long ones (per-thread scratch must not leak between calls)
     for n in (0..=200usize).chain([1000, 4099, 0, 1, 2, 3, 5, 7, 15, 16, 17, 0, 31, 4099, 0]) { case();
         let a: Vec<f64> = (0..n).map(|i| ((i * 7 + 3) % 11) as f64 - 5.0).collect(); let b: Vec<f64> = (0..n).map(|i| ((i * 5 + 1) % 13) as f64 - 6.0).collect();
@@ -938,16 +1023,23 @@ fn c19_file(rng: &mut Rng, out: &mut Out) {
     // writing a 1-D mesh to a file and reading it back reproduces nodes and variables (dyadic data, printed exactly),
     // whether the target mesh is new or already holds an (other) grid
     let dir = std::env::temp_dir();
-    for it in 0..12 { case();
+    for it in 0..24 { case();
         let (n, nv) = (2 + rng.below(6) as usize, 1 + rng.below(3) as usize);
-        let xs: Vec<f64> = (0..n).scan(-1.0, |s, _| { *s += 0.25 * (1 + rng.below(4)) as f64; Some(*s) }).collect();
+        // every printed precision (0, 3, 8 decimals) with data that prints exactly at it; magnitudes from 0.5 to 1e6 and large negative
+        // values / nodes (fields of 7 and more characters), so that the column separator is what keeps neighbouring numbers apart
+        let prec = [8usize, 0, 3, 8][it % 4];
+        let unit = if prec == 0 { 1.0 } else { 0.5 };
+        let vscale = unit * [1.0, 4096.0, 131072.0][(it / 4) % 3];
+        let x0 = if it % 8 >= 4 { -262144.0 } else { -1.0 };
+        let xstep = if prec == 0 { 1.0 } else { 0.25 };
+        let xs: Vec<f64> = (0..n).scan(x0, |s, _| { *s += xstep * (1 + rng.below(4)) as f64; Some(*s) }).collect();
         let mut m = Mesh1D::<f64, f64>::new(Vector::create(xs.clone()), nv);
         let mut model = vec![vec![0.0f64; nv]; n];
-        for i in 0..n { let v: Vec<f64> = (0..nv).map(|_| rng.int(-9, 9) as f64 * 0.5).collect(); model[i] = v.clone(); m.set_nodes_vars(i, Vector::create(v)); }
+        for i in 0..n { let v: Vec<f64> = (0..nv).map(|_| rng.int(-9, 9) as f64 * vscale).collect(); model[i] = v.clone(); m.set_nodes_vars(i, Vector::create(v)); }
         let path = dir.join(format!("ohsl_replay_c19_{}_{}.dat", std::process::id(), it));
         let ps = path.to_string_lossy().to_string();
-        let ctx = format!("nodes={:?} vars={:?}", xs, model);
-        if quiet(|| m.output(&ps, 8)).is_err() { report(out, "C19 output panicked", ctx.clone(), "panic".into(), "a file".into()); continue; }
+        let ctx = format!("precision={} nodes={:?} vars={:?}", prec, xs, model);
+        if quiet(|| m.output(&ps, prec)).is_err() { report(out, "C19 output panicked", ctx.clone(), "panic".into(), "a file".into()); continue; }
         let targets: Vec<(&str, Mesh1D<f64, f64>)> = vec![
             ("a new mesh", Mesh1D::<f64, f64>::new(Vector::create(vec![0.0, 1.0]), nv)),
             ("a mesh holding the same grid and data", { let mut c = Mesh1D::<f64, f64>::new(Vector::create(xs.clone()), nv); for i in 0..n { c.set_nodes_vars(i, Vector::create(model[i].clone())); } c }),
